@@ -20,7 +20,14 @@ type PropSpec struct {
 // Registry maps a rule id to its implementation.
 var Registry = map[string]func(*core.Ctx){}
 
-func reg(id string, f func(*core.Ctx)) { Registry[id] = f }
+// reg registers a rule function; a rule registered twice runs both parts in order of registration.
+func reg(id string, f func(*core.Ctx)) {
+	if prev := Registry[id]; prev != nil {
+		Registry[id] = func(c *core.Ctx) { prev(c); f(c) }
+		return
+	}
+	Registry[id] = f
+}
 
 var commonTrusted = []string{
 	"go/packages + go/types (type-checked syntax of /repo's working tree, default build configuration linux/amd64 cgo)",
